@@ -29,7 +29,7 @@ def write_rows(path, rows, delimiter=",", quotechar='"'):
         csv.writer(fh, delimiter=delimiter, quotechar=quotechar).writerows(rows)
 
 
-SCANS = ["*", "*", "*", "1*", "0-3", "1-2", "2", "0+2+4", "1-2+4", "3-1", "2*", "0", "1+3"]
+SCANS = ["*", "*", "*", "1*", "0-3", "1-2", "2", "0+2+4", "1-2+4", "3-1", "2*", "0", "1+3", "3+1", "4+0+2"]
 
 
 def gen_cond(rng):
